@@ -79,10 +79,16 @@ type behaviour struct {
 	// down), 2 = the handler swaps in a request whose own deadline has passed (s.R = s.R.WithContext(...)) before it
 	// goes on. The statement is about what the handler does, not about the state of the request context.
 	ctxDone int
+	// invalidCode: the handler passes a status code to WriteHeader that net/http refuses with a panic (a proxy handing on
+	// a bad upstream code): nothing has been written, the panic comes out of WriteHeader itself
+	invalidCode int
 }
 
 func (b behaviour) String() string {
 	s := fmt.Sprintf("status=%d body=%v", b.status, b.body)
+	if b.invalidCode != 0 {
+		s += fmt.Sprintf(" WriteHeader(%d)", b.invalidCode)
+	}
 	if b.ctxDone > 0 {
 		s += []string{"", " (request context already cancelled)", " (handler swaps in a request past its deadline)"}[b.ctxDone]
 	}
@@ -242,6 +248,9 @@ func handlerFor() httpd.HandlerFunc {
 			ctx, cancel := context.WithDeadline(s.R.Context(), time.Now().Add(-time.Second))
 			defer cancel()
 			s.R = s.R.WithContext(ctx)
+		}
+		if b.invalidCode != 0 {
+			s.W.WriteHeader(b.invalidCode) // net/http panics: "invalid WriteHeader code ..."
 		}
 		if b.panicKind != pNone && b.panicBefore {
 			doPanic(b)
@@ -428,6 +437,10 @@ func genBatch(t *rapid.T) *batch {
 				bh.pstr = rapid.SampledFrom([]string{"expected", "boom", "x=y"}).Draw(t, "pstrNano")
 			}
 			bh.pint = rapid.IntRange(-5, 500).Draw(t, "pint")
+		} else if rapid.IntRange(0, 11).Draw(t, "invalidCode") == 0 {
+			bh.invalidCode = rapid.SampledFrom([]int{99, 1000, -1, 7, 1 << 20}).Draw(t, "code")
+			bh.status, bh.body = 0, false
+			bh.panicKind, bh.panicBefore, bh.pstr = pString, true, fmt.Sprintf("invalid WriteHeader code %d", bh.invalidCode)
 		} else if rapid.IntRange(0, 11).Draw(t, "aborts") == 0 {
 			bh.panicKind = pAbort
 			bh.panicBefore = rapid.Bool().Draw(t, "abortBefore")
